@@ -197,6 +197,18 @@ struct Ir {
     items: BTreeMap<u64, usize>,
 }
 impl Ir {
+    /// `Item::canonical_name` before the renaming callback and `rust_mangle`: the names of the
+    /// item and of its ancestors joined with `_`; namespaces take part unless
+    /// `--enable-cxx-namespaces` turns them into modules.
+    fn canonical_base(&self, id: u64) -> String {
+        let ns_modules = self.recs.iter().find(|r| r.tag == "opt").is_some_and(|r| r.flag("enable_cxx_namespaces"));
+        let Some(it) = self.item(id) else { return String::new() };
+        let comps: Vec<String> = it.get("path").split("::").map(irdump::unesc).collect();
+        // with namespaces as modules the path is `root::<modules…>::<canonical name>`
+        if ns_modules { return comps.last().cloned().unwrap_or_default(); }
+        let skip = if comps.first().map(|c| c.as_str()) == Some("root") && comps.len() > 1 { 1 } else { 0 };
+        comps[skip..].join("_")
+    }
     fn new(recs: Vec<Record>) -> Ir {
         let mut types = BTreeMap::new();
         let mut items = BTreeMap::new();
@@ -256,8 +268,7 @@ impl<'a> TermCtx<'a> {
         format!("s{k}")
     }
     fn item_name(&self, id: u64, prefix: &str) -> String {
-        let n = self.ir.item(id).map(|i| i.get("path").rsplit("::").next().unwrap_or("").to_owned()).unwrap_or_default();
-        let n = irdump::unesc(&n);
+        let n = self.ir.canonical_base(id);
         // under --c-naming the path component already carries the `struct_` / `union_` / `enum_` prefix
         let _ = (prefix, self.c_naming);
         format!("<{n}>")
@@ -771,7 +782,9 @@ fn check_against_model(case_name: &str, tf: &str, ir: &Ir, inv: &Inventory, mode
         if r.tag == "fn" && enabled {
             let name = irdump::unesc(r.get("name"));
             if r.get("linkage") == "Internal" { continue; }
-            let cname = match mode { CbMode::ItemName | CbMode::StripUnderscore | CbMode::Twin => rename(mode, &name).unwrap_or_else(|| name.clone()), _ => name.clone() };
+            // methods: canonical name = <class>_<name> (Item::canonical_name joins the ancestors with `_`)
+            let base = { let b = ir.canonical_base(id); if b.is_empty() { name.clone() } else if b.ends_with(&name) || !r.get("kind").starts_with("Function") { b } else { name.clone() } };
+            let cname = match mode { CbMode::ItemName | CbMode::StripUnderscore | CbMode::Twin => rename(mode, &base).unwrap_or_else(|| base.clone()), _ => base.clone() };
             let clang_cc = cc_of(&name);
             let ovs: Vec<String> = overrides.iter().map(|(n, a)| format!("{a}.{}", (*n == name) as u8)).collect();
             let variadic = r.num("sig").and_then(|s| ir.ty(s)).map(|t| t.flag("variadic") && t.get("args") != "-").unwrap_or(false);
@@ -783,7 +796,8 @@ fn check_against_model(case_name: &str, tf: &str, ir: &Ir, inv: &Inventory, mode
         }
         if r.tag == "var" && enabled && r.get("val") == "-" {
             let name = irdump::unesc(r.get("name"));
-            let cname = match mode { CbMode::ItemName | CbMode::StripUnderscore | CbMode::Twin => rename(mode, &name).unwrap_or_else(|| name.clone()), _ => name.clone() };
+            let base = { let b = ir.canonical_base(id); if b.is_empty() { name.clone() } else { b } };
+            let cname = match mode { CbMode::ItemName | CbMode::StripUnderscore | CbMode::Twin => rename(mode, &base).unwrap_or_else(|| base.clone()), _ => base.clone() };
             vars.push(format!("{}:{}:{}:{}", hex(&name), hex(&cname),
                 r.opt_str("mangled").map(|m| hex(&m)).unwrap_or_else(|| "-".into()),
                 r.opt_str("link").map(|m| hex(&m)).unwrap_or_else(|| "-".into())));
@@ -876,7 +890,7 @@ fn check_against_model(case_name: &str, tf: &str, ir: &Ir, inv: &Inventory, mode
         st.bump("lowered_types_compared", 1);
         let cls: String = a.chars().filter(|c| !c.is_ascii_digit()).collect();
         st.distinct.insert(format!("lower:{}:{}", if *k == usize::MAX { "r" } else { "p" }, cls));
-        if want != got {
+        if want != got && want != strip_ns(&got) {
             st.fail("correspondence", "lowering", format!("{name} {}: model {want} (raw {a}) implementation {got}", if *k == usize::MAX { "return".into() } else { format!("param {k}") }), case_name);
         }
     }
@@ -889,6 +903,21 @@ fn enabled_abi_feats() -> String {
     let dbg = bindgen::verif::rust_features(&t, "2021").unwrap_or_default();
     let v: Vec<&str> = ["thiscall_abi", "vectorcall_abi", "c_unwind_abi", "abi_efiapi"].into_iter().filter(|f| dbg.contains(&format!("{f}: true"))).collect();
     if v.is_empty() { "-".into() } else { v.join(",") }
+}
+
+/// `<root::ns::X>` -> `<X>` (with --enable-cxx-namespaces types are named by their module path)
+fn strip_ns(shape: &str) -> String {
+    let mut out = String::new();
+    let mut rest = shape;
+    while let Some(i) = rest.find("<root::") {
+        out.push_str(&rest[..i + 1]);
+        let end = rest[i..].find('>').map(|e| i + e).unwrap_or(rest.len());
+        let inner = &rest[i + 1..end];
+        out.push_str(inner.rsplit("::").next().unwrap_or(inner));
+        rest = &rest[end..];
+    }
+    out.push_str(rest);
+    out
 }
 
 fn attr_text(a: &str) -> String {
@@ -1288,6 +1317,96 @@ fn part_c_targets(args: &Args, root: &Path, st: &mut Stats) {
     }
 }
 
+// ------------------------------------------------------------------ C++ classes
+
+fn part_cpp(args: &Args, root: &Path, st: &mut Stats) {
+    let n = if args.thorough() { 200 } else { 6 };
+    let mut r = Rng::new(args.seed ^ 0xC99);
+    for idx in 0..n {
+        let name = format!("cpp{idx}");
+        let dir = root.join(&name);
+        std::fs::create_dir_all(&dir).unwrap();
+        let ity = |r: &mut Rng| *r.pick(&["int", "long", "unsigned", "short", "long long", "unsigned char"]);
+        let (t1, t2, t3, t4) = (ity(&mut r), ity(&mut r), ity(&mut r), ity(&mut r));
+        let (c1, c2, c3, c4, c5) = (r.range(2, 90) as i64, r.range(2, 90) as i64, r.range(2, 90) as i64, r.range(2, 90) as i64, r.range(2, 90) as i64);
+        let cls = *r.pick(&["K", "Widget", "type_", "Box2"]);
+        let meth = *r.pick(&["get", "match", "value", "type"]);
+        let virt = r.chance(1, 3);
+        let ns = r.chance(1, 4);
+        let mut h = String::new();
+        if ns { h.push_str("namespace c04ns {\n"); }
+        let _ = writeln!(h, "class {cls} {{\npublic:\n  long a; double b;\n  {cls}({t1} x);\n  {cls}({t1} x, double y);\n  {}~{cls}();\n  long {meth}({t2} p) const;\n  long {meth}(double p);\n  static long sm({t3} q);\n  void set({t4} v);\n}};", if virt { "virtual " } else { "" });
+        let _ = writeln!(h, "long c04cpp_free({cls} *k);\nextern long c04_dtor_count;");
+        if ns { h.push_str("}\n"); }
+        let q = if ns { "c04ns::" } else { "" };
+        let mut c = String::from("#include \"lib.hpp\"\n");
+        if ns { c.push_str("namespace c04ns {\n"); }
+        let _ = writeln!(c, "long c04_dtor_count = 0;\n{cls}::{cls}({t1} x) : a((long)x * {c1}), b(0.5) {{}}\n{cls}::{cls}({t1} x, double y) : a((long)x + {c2}), b(y) {{}}\n{cls}::~{cls}() {{ c04_dtor_count += a; }}");
+        let _ = writeln!(c, "long {cls}::{meth}({t2} p) const {{ return a * {c3} + (long)p; }}\nlong {cls}::{meth}(double p) {{ a += 1; return (long)(p * 8) + a * {c4}; }}\nlong {cls}::sm({t3} q) {{ return (long)q * {c5}; }}\nvoid {cls}::set({t4} v) {{ a = (long)v - 1; }}\nlong c04cpp_free({cls} *k) {{ return k->a + (long)(k->b * 8); }}");
+        if ns { c.push_str("}\n"); }
+        let _ = q;
+        util::write(&dir.join("lib.hpp"), &h);
+        util::write(&dir.join("lib.cpp"), &c);
+        let mut flags = vec![dir.join("lib.hpp").to_string_lossy().into_owned(), "--formatter".into(), "none".into()];
+        let merge = r.chance(1, 2); let sort = r.chance(1, 2); let nsopt = ns && r.chance(1, 2);
+        if merge { flags.push("--merge-extern-blocks".into()); }
+        if sort { flags.push("--sort-semantically".into()); }
+        if nsopt { flags.push("--enable-cxx-namespaces".into()); }
+        flags.extend(["--".to_string(), "-x".into(), "c++".into(), "-std=c++14".into()]);
+        let out = generate(&flags, CbMode::None, &dir.join("ir.log"));
+        st.bump("cpp_cases", 1);
+        let Some(b) = out.bindings else { st.fail("oracle", "bindgen-failed", format!("{:?} {:?}", out.error, out.panic), &name); continue };
+        util::write(&dir.join("bindings.rs"), &b);
+        let Ok(inventory) = inv::inventory(&b) else { st.fail("oracle", "bindings-unparsable", String::new(), &name); continue };
+        let log = irdump::parse_log(out.log.as_deref().unwrap_or(""));
+        let Some(d) = log.dumps.into_iter().last() else { continue };
+        let ir = Ir::new(d);
+        let before = st.failures.len();
+        let pred = check_against_model(&name, "elf", &ir, &inventory, CbMode::None, &[], false, &|_| "C".into(), &|_| 0, st);
+        st.bump("cpp_bindings_predicted", pred.len() as u64);
+        // the Rust caller goes through the generated method wrappers
+        let rcls = if cls == "type_" { "type_" } else { cls };
+        let path = if nsopt { format!("root::c04ns::{rcls}") } else if ns { format!("c04ns_{rcls}") } else { rcls.to_string() };
+        let pmod = if nsopt { "root::c04ns::" } else { "" };
+        let rmeth = match meth { "match" => "match_", "type" => "type_", m => m };
+        let pre = if nsopt { "root::c04ns::" } else if ns { "c04ns_" } else { "" };
+        let (x1, x2, p1, q1, v1) = (r.range(1, 100) as i64, r.range(1, 100) as i64, r.range(1, 100) as i64, r.range(1, 100) as i64, r.range(2, 100) as i64);
+        let pd = r.range(1, 64) as i64; // p = pd / 8
+        let Some(dtor) = inventory.fns.iter().find(|f| inv::elf_symbol(&f.ident, &f.link_name).ends_with("D1Ev")).map(|f| f.ident.clone()) else { st.fail("oracle", "symbol-unbound", "no binding for the complete-object destructor (D1)".into(), &name); continue };
+        let caller = format!("#![allow(warnings)]\ninclude!(\"bindings.rs\");\nfn main() {{ unsafe {{\n let mut k = {path}::new({x1} as _);\n let mut k2 = {path}::new1({x2} as _, 1.5);\n println!(\"A {{}} {{}} {{}}\", k.a, k2.a, (k2.b * 8.0) as i64);\n println!(\"B {{}}\", k.{rmeth}({p1} as _));\n println!(\"C {{}} {{}}\", k.{meth}1({pd} as f64 / 8.0), k.a);\n println!(\"D {{}}\", {path}::sm({q1} as _));\n k.set({v1} as _); println!(\"E {{}}\", k.a);\n println!(\"F {{}}\", {pre}c04cpp_free(&mut k2));\n {pmod}{dtor}(&mut k); {pmod}{dtor}(&mut k2); println!(\"G {{}}\", {pre}c04_dtor_count);\n}} }}\n");
+        util::write(&dir.join("caller.rs"), &caller);
+        let (rc, _s, e) = util::run(Command::new("clang++").args(["-O1", "-w", "-std=c++14", "-c"]).arg(dir.join("lib.cpp")).arg("-o").arg(dir.join("lib.o")).current_dir(&dir));
+        if rc != 0 { st.fail("oracle", "generator-c-invalid", e.chars().take(800).collect(), &name); continue; }
+        let (_rc, s, _e) = util::run(Command::new("nm").args(["-g", "--defined-only"]).arg(dir.join("lib.o")));
+        let defined: BTreeSet<String> = s.lines().filter_map(|l| l.split_whitespace().nth(2).map(|x| x.to_owned())).collect();
+        for f in &inventory.fns {
+            let sym = inv::elf_symbol(&f.ident, &f.link_name);
+            st.bump("cpp_symbols_checked", 1);
+            if !defined.contains(&sym) { st.fail("oracle", "symbol-undefined", format!("binding {} refers to {sym}, not defined by the C++ object (defined: {:?})", f.ident, defined.iter().take(12).collect::<Vec<_>>()), &name); }
+            st.distinct.insert(format!("cpp:{}:{}", if sym.contains("C1E") || sym.contains("C2E") { "ctor" } else if sym.contains("D1E") { "dtor" } else if f.args.first().is_some_and(|a| a.0 == "this") { "method" } else { "static-or-free" }, match f.args.first().map(|a| inv::shape(&a.1)) { Some(s) if s.starts_with("*c") => "const-this", Some(s) if s.starts_with("*m") => "mut-this", _ => "no-this" }));
+        }
+        let (rc, _s, e) = util::run(Command::new("rustc").args(["--edition", "2021", "--cap-lints", "allow", "-C", "opt-level=1"]).arg("-C").arg(format!("link-arg={}", dir.join("lib.o").display())).args(["-C", "link-arg=-lstdc++"]).arg("-o").arg(dir.join("caller")).arg(dir.join("caller.rs")).current_dir(&dir));
+        if rc != 0 { st.fail("oracle", "rustc-or-link", e.chars().take(2000).collect(), &name); keep_case(&dir, &name); continue; }
+        let (_rc, so, _e) = util::run(&mut Command::new(dir.join("caller")));
+        // reference semantics
+        let trunc = |t: &str, v: i64| -> i64 { match t { "int" => v as i32 as i64, "long" | "long long" => v, "unsigned" => v as u32 as i64, "short" => v as i16 as i64, "unsigned char" => v as u8 as i64, _ => v } };
+        let a1 = trunc(t1, x1) * c1;
+        let a2 = trunc(t1, x2) + c2;
+        let bget = a1 * c3 + trunc(t2, p1);
+        let a1b = a1 + 1;
+        let cget = pd + a1b * c4;
+        let dsm = trunc(t3, q1) * c5;
+        let e = trunc(t4, v1) - 1;
+        let f = a2 + 12;
+        let g = e + a2;
+        let want = format!("A {a1} {a2} 12\nB {bget}\nC {cget} {a1b}\nD {dsm}\nE {e}\nF {f}\nG {g}\n");
+        st.bump("cpp_calls_checked", 9);
+        if so != want { st.fail("oracle", "cpp-call", format!("class {cls} method {meth}: expected {want:?} observed {so:?}"), &name); keep_case(&dir, &name); }
+        if st.failures.len() > before { let _ = std::fs::copy(dir.join("lib.hpp"), Path::new(&std::env::var("C04_KEEP").unwrap_or_else(|_| "/nonexistent".into())).join(format!("{name}.hpp"))); }
+        let _ = std::fs::remove_dir_all(&dir);
+    }
+}
+
 // ------------------------------------------------------------------ main / report
 
 fn main() {
@@ -1300,6 +1419,7 @@ fn main() {
     let want = |p: &str| only.as_deref().map_or(true, |o| o.split(',').any(|x| x == p));
     if want("a") { part_a(&args, &mut st); }
     if want("c") { part_c_probes(&root, &mut st); part_c_targets(&args, &root, &mut st); }
+    if want("cpp") { part_cpp(&args, &root, &mut st); }
     if want("b") { part_b(&args, &root, &mut st); }
     let mut j = String::from("{\n");
     let _ = writeln!(j, " \"tier\": {}, \"seed\": {},", json_str(&args.tier), args.seed);
